@@ -64,7 +64,7 @@ def run(ctx):
     lp_cfg = g.loop_of(loop_node)
 
     # ---- once per iteration / nowhere else
-    apps = history_appends(sample)
+    apps = history_appends(sample, repo, smc)
     for series in SERIES:
         nodes = [n for s, n in apps if s == series]
         def weight(node, nodes=nodes):
@@ -192,6 +192,7 @@ MUTANTS = [
     M("population not carried", _B, "samples = self.mutate(samples, beta)\n", "self.mutate(samples, beta)\n", "C08.flow"),
 ]
 NEUTRALS = [
+    M("history through a local alias", _B, "self.history.log_norm_ratio.append(log_evidence_ratio)", "hist = self.history\n                hist.log_norm_ratio.append(log_evidence_ratio)"),
     M("ratio via temporary names", _B, "log_evidence_ratio = samples.log_evidence_ratio(beta)", "lz = samples.log_evidence_ratio(beta)\n                log_evidence_ratio = lz"),
     M("variance regrouped", _S, "var_w / (len(self) * (mean_w**2))", "(var_w / mean_w**2) / len(self.x)"),
     M("appends reordered", _B, "self.history.log_norm_ratio.append(log_evidence_ratio)\n                self.history.log_norm_ratio_var.append(log_evidence_ratio_var)", "self.history.log_norm_ratio_var.append(log_evidence_ratio_var)\n                self.history.log_norm_ratio.append(log_evidence_ratio)"),
